@@ -47,6 +47,10 @@ fn normalise(dom: &mut WeakDom) -> Vec<Ref> {
                 if let Some(Variant::Content(_)) = i.properties.get(&key) {
                     i.properties.remove(&key);
                 }
+                // properties *named* Name / ClassName / Parent are for the DOM operations only
+                if matches!(key.as_str(), "Name" | "ClassName" | "Parent") {
+                    i.properties.remove(&key);
+                }
                 // the model's second UniqueId-typed value follows the payload: positional as well
                 if key.as_str() == "Archivable" {
                     i.properties.insert(key, Variant::Bool(k % 3 != 0));
